@@ -26,7 +26,10 @@ EXPLANATION = (
     "round trips, injectivity/disjointness of the .0/.1 names, the exact edges_to_ignore list, the edge set of the expansion, the "
     "bijection between routes of G and of expand G with visit counts, and ignore-list membership. Equality of status/objective is "
     "then definitional (node mode IS edge mode on the expansion); it is sampled by E2 on the explicit expansion built from the "
-    "model's output, and for the k-classes the two LPs handed to HiGHS are read back and compared as sets of columns/rows (E1). get_solution(remove_empty=True) in node mode filters on the INTERNAL route since /repo 7b35658 (C11_full_statement_remove_empty is a theorem of the current model; the old filter on condensed routes is kept as ne_node_solution_old with its refutation); the filter functions of the six k-classes are tied to the model by E3 (kind glue_solution). Open finding: MinFlowDecompCycles node mode rejects additional starts/ends.")
+    "model's output, and for the k-classes the two LPs handed to HiGHS are read back and compared as sets of columns/rows (E1). get_solution(remove_empty=True) in node mode filters on the INTERNAL route since /repo 7b35658 (C11_full_statement_remove_empty is a theorem of the current model; the old filter on condensed routes is kept as ne_node_solution_old with its refutation); the filter functions of the six k-classes are tied to the model by E3 (kind glue_solution). Lengths: C11_expand_lengths / C11_expanded_route_length (node lengths on node edges, 0 on connecting edges); every E2 case also compares the "
+    "expansion the class built for itself (G_internal) with the model, and the six classes with a length_attr parameter are solved with node "
+    "lengths and length coverages. Open findings: MinFlowDecompCycles node mode rejects additional starts/ends; kPathCover/MinPathCover node mode "
+    "do not forward length_attr to the expansion.")
 ASSUMPTIONS = [
     "node names are strings over code points 0..255 (one Coq ascii per character)",
     "attribute values are opaque to the expansion; the harness uses integers in E3",
@@ -471,8 +474,10 @@ CLASSES = {
     "MinPathCoverCycles":    ("cyc", False, "subset_constraints",  True,  "cover", "walks"),
     "MinErrorFlow":          ("any", False, None,                  True,  "mef",   None),
 }
+LEN_CLASSES = ("kFlowDecomp", "MinFlowDecomp", "kLeastAbsErrors", "kMinPathError", "kPathCover", "MinPathCover")   # have a length_attr parameter
 REMOVE_EMPTY = {"kFlowDecomp": "remove_empty_paths", "kLeastAbsErrors": "remove_empty_paths", "kMinPathError": "remove_empty_paths",
                 "kFlowDecompCycles": "remove_empty_walks", "kLeastAbsErrorsCycles": "remove_empty_walks", "kMinPathErrorCycles": "remove_empty_walks"}
+KEY_COVER_LEN = "PathCover:node:length_attr_not_forwarded"
 KEY_MFDC_STARTS = "MinFlowDecompCycles:node:additional_starts_ends:ValueError"
 
 
@@ -541,16 +546,31 @@ def node_instance(rng, cls, focus=False):
         kw["k"] = max(1, len(routes) + rng.choice([0, 0, 0, 1, -1]))
         if cyc: kw["k"] = min(kw["k"], 3)              # the cyclic MILPs grow quickly with k; structure, not size, is the point
     cons = []
-    if cons_kw and rng.random() < 0.4:
+    use_len = cls in LEN_CLASSES and (focus or rng.random() < 0.5)
+    cov_len = None
+    if use_len:
+        # node lengths (missing on some nodes -> default 1), now and then a length on an original edge (copied to (u.1, v.0))
+        for v in G:
+            if rng.random() < 0.85: G.nodes[v]["len"] = rng.randint(1, 4)
+        for u, v in G.edges:
+            if rng.random() < 0.1: G.edges[u, v]["len"] = rng.randint(1, 3)
+        kw["length_attr"] = "len"
+        if rng.random() < (0.8 if focus else 0.6):
+            cov_len = rng.choice([1.0, 1.0, 0.75, 0.5] if focus else [0.5, 0.75, 1.0]); kw["subpath_constraints_coverage_length"] = cov_len
+    if cons_kw and (rng.random() < 0.4 or cov_len is not None):
         rt = rng.choice(routes)
-        if rng.random() < 0.5 or len(rt) < 2:
+        if use_len and rng.random() < (0.85 if focus else 0.6) and not cyc:
+            # a path of the graph that need not be a route of the flow: only partly coverable, so the coverage threshold bites
+            allp = [q for q in gen.all_st_paths(B) if len(q) >= 2]
+            if allp: rt = rng.choice(allp)
+        if (rng.random() < ((0.1 if focus else 0.25) if cov_len is not None else 0.5)) or len(rt) < 2:
             n = rng.randint(1, min(3, len(rt))); a = rng.randrange(0, len(rt) - n + 1)
             cons = [rt[a:a + n]]
         else:
             es_ = list(zip(rt, rt[1:])); n = rng.randint(1, min(2, len(es_))); a = rng.randrange(0, len(es_) - n + 1)
             cons = [es_[a:a + n]]
         kw[cons_kw] = cons
-    ign = [v for v in G if rng.random() < 0.12]
+    ign = [v for v in G if rng.random() < (0.03 if focus else 0.12)]
     if fam != "cover" and not any("flow" in d and v not in ign for v, d in G.nodes(data=True)):
         # the property (and the classes) need at least one weighted element that is not ignored
         v = rng.choice(list(G.nodes)); G.nodes[v]["flow"] = max(1, flow[v]); ign = [x for x in ign if x != v]
@@ -665,7 +685,7 @@ def build_explicit(xn, xe):
 
 
 def e2_cases(ctx, per_class, classes=None, stream="e2"):
-    reqs = []; cases = []; pending_lp = []
+    reqs = []; cases = []; pending = []
     for cls in (classes or CLASSES):
         kind, has_k, cons_kw, se, fam, rkey = CLASSES[cls]
         for i in range(per_class):
@@ -682,7 +702,7 @@ def e2_cases(ctx, per_class, classes=None, stream="e2"):
             fill = (se == "fill") and bool(inst["starts"] or inst["ends"])
             wg = w_graph(Gm)
             base = len(reqs)
-            reqs.append("ne_construct " + common.toks(wg, w_str(flow), w_ostr(None), w_strs(inst["starts"] if fill else []),
+            reqs.append("ne_construct " + common.toks(wg, w_str(flow), w_ostr(inst["kw"].get("length_attr")), w_strs(inst["starts"] if fill else []),
                                                        w_strs(inst["ends"] if fill else []), fill, w_str("SRC"), w_str("SNK")))
             reqs.append("ne_cons " + common.toks(wg, len(inst["cons"]), [[len(c)] + [w_elem(e) for e in c] for c in inst["cons"]]))
             reqs.append("ne_starts " + common.toks(wg, w_strs(inst["starts"])))
@@ -768,6 +788,34 @@ def e2_cases(ctx, per_class, classes=None, stream="e2"):
         if nobs.get("timeout") or eobs.get("timeout"):
             ctx.count(eng, "skipped_solver_time_limit"); continue
         lp_diff = None
+        # ---- E3: the expansion the class builds for itself (G_internal: nodes, edges, attribute dicts incl. the lengths) vs the model's
+        mi = nobs.get("model")
+        case_key = None                                  # set when this very case shows the signature of an open finding
+        if mi is not None and hasattr(mi, "G_internal") and hasattr(mi.G_internal, "edges_to_ignore") and not fill:
+            dummy = getattr(mi.G_internal, "node_flow_attr", None) if fam == "cover" else None
+            ren = lambda d: [("cov" if k == dummy else k, x) for k, x in d.items()]
+            got_n = [[v, ren(d)] for v, d in mi.G_internal.nodes(data=True)]
+            got_e = [[(u, v), ren(d)] for u, v, d in mi.G_internal.edges(data=True)]
+            ctx.count("E3_class_internal_graph", "cases")
+            lk = kw.get("length_attr")
+            why = None
+            if lk is not None:                          # the property-level reading: node lengths on node edges, 0 on connecting edges
+                for (u, v), d in got_e:
+                    dd = dict(d)
+                    if u[:-2] == v[:-2] and u.endswith(".0") and v.endswith(".1"):
+                        if dd.get(lk) != G.nodes[u[:-2]].get(lk):
+                            why = f"node edge {(u, v)} does not carry the node's {lk!r}"
+                    elif lk not in dd:
+                        why = f"connecting edge {(u, v)} has no {lk!r} (defaults to 1 later) instead of 0"
+            if json.dumps([got_n, got_e], default=list) != json.dumps([xn, xe], default=list) or why:
+                ctx.count("E3_class_internal_graph", "disagreements")
+                key = KEY_COVER_LEN if (fam == "cover" and lk is not None and why and "connecting edge" in why) else None
+                if key and kw.get("subpath_constraints_coverage_length") is not None and any(isinstance(e, tuple) for c in inst["cons"] for e in c):
+                    case_key = key                       # lengths of connecting edges enter the coverage of an edge-type constraint
+                pending.append((cls, "E3 correspondence broken: the node expansion built by " + cls + " differs from the NodeExp model"
+                                + (": " + why if why else ""), {**info, "internal_edges": got_e[:40], "model_edges": xe[:40]}, key))
+            else:
+                ctx.count("E3_class_internal_graph", "agreements")
         # ---- E1 (LP against LP): node mode must hand HiGHS the same LP as edge mode on the model's expansion
         mn, me = nobs.get("model"), eobs.get("model")
         if has_k and mn is not None and me is not None and hasattr(mn, "solver") and hasattr(me, "solver") and type(mn) is type(me):
@@ -784,6 +832,7 @@ def e2_cases(ctx, per_class, classes=None, stream="e2"):
         if issues == ["both_raise"]:
             ctx.count(eng, "both_modes_raise_same_exception"); ctx.dist("e2:both_raise:" + nobs["exc"].split(":")[0])
         elif issues:
+            issues = [(w, k or case_key) for w, k in issues]
             allknown = all(key and ctx.open_finding(key) for _, key in issues)
             ctx.count(eng, "agree_up_to_known_finding" if allknown else "failures")
             for what, key in issues:
@@ -791,14 +840,15 @@ def e2_cases(ctx, per_class, classes=None, stream="e2"):
         else:
             ctx.count(eng, "agreements")
         if lp_diff:
-            pending_lp.append((cls, lp_diff, info))
-    # a broken LP correspondence: search the same classes harder for an input on which the property itself fails
-    if pending_lp and stream == "e2" and not any(v["concrete"] for v in ctx.violations):
-        e2_cases(ctx, 4 * per_class, classes=sorted({c for c, _, _ in pending_lp}), stream="e2search")
-    for cls, lp_diff, info in pending_lp:
-        if not any(v["concrete"] for v in ctx.violations):
-            ctx.report(f"E1 correspondence broken: {cls} in node mode hands HiGHS a different LP than edge mode on the model's expansion: " + "; ".join(lp_diff[:3]),
-                       {**info, "lp_diff": lp_diff}, concrete=False)
+            pending.append((cls, f"E1 correspondence broken: {cls} in node mode hands HiGHS a different LP than edge mode on the model's expansion: "
+                            + "; ".join(lp_diff[:3]), {**info, "lp_diff": lp_diff}, case_key))
+    # a broken correspondence: search the same classes harder for an input on which the property itself fails
+    fresh = [x for x in pending if not (x[3] and ctx.open_finding(x[3]))]
+    if fresh and stream == "e2" and not any(v["concrete"] for v in ctx.violations):
+        e2_cases(ctx, 8 * per_class, classes=sorted({x[0] for x in fresh}), stream="e2search")
+    for cls, what, info, key in pending:
+        if key or not any(v["concrete"] for v in ctx.violations):
+            ctx.report(what, info, key=key, concrete=False)
 
 
 def close(a, b, tol=1e-6):
